@@ -73,6 +73,12 @@ func (c *Codec) NewWriter(w io.Writer) io.WriteCloser {
 		x = &xerialWriter{writer: w}
 	}
 	x.framed = c.Framing == Framed
+	if x.framed && cap(x.input) > defaultBufferSize {
+		// A writer recycled after an unframed stream may carry a buffer that
+		// grew beyond the block size; cap it so that framed blocks (and the
+		// bytes produced) do not depend on what the writer processed before.
+		x.input = x.input[:0:defaultBufferSize]
+	}
 	switch c.Compression {
 	case FasterCompression:
 		x.encode = s2.EncodeSnappy
